@@ -46,7 +46,7 @@ impl Int {
     ///
     /// Otherwise nothing will be returned (undefined).
     pub fn as_negative(&self) -> Option<BigNum> {
-        if !self.is_positive() {
+        if !self.is_positive() && self.0 >= -(u64::MAX as i128) {
             Some(((-self.0) as u64).into())
         } else {
             None
